@@ -260,7 +260,59 @@ func c40(c *engine.Ctx) {
 				}
 			})
 			if rng == nil {
-				c.Fail("C40.R4", "extractArgument/scans-part", call.Pos(), "the converted part is not scanned rune by rune (no range over %s)", engine.Describe(part))
+				// the scan may be a predicate of the package applied to the part
+				// (digitsOnly(part)): the predicate must be the same rune-by-rune test,
+				// and its two outcomes take the places of the loop's two exits
+				var hc *ssa.Call
+				for _, pc := range engine.Calls(ea) {
+					k, isC := pc.(*ssa.Call)
+					if !isC {
+						continue
+					}
+					if h := k.Common().StaticCallee(); h != nil && len(h.Blocks) > 0 && h.Pkg == ea.Pkg && len(h.Params) == 1 && len(k.Common().Args) == 1 && engine.Unwrap(k.Common().Args[0]) == part {
+						hc = k
+					}
+				}
+				if hc == nil {
+					c.Fail("C40.R4", "extractArgument/scans-part", call.Pos(), "the converted part is not scanned rune by rune (no range over %s)", engine.Describe(part))
+					continue
+				}
+				okPred, why := c40DigitPredicate(hc.Common().StaticCallee())
+				yes := engine.EdgesWhere(ea, callBool(hc, true))
+				no := engine.EdgesWhere(ea, callBool(hc, false))
+				n4++
+				c.Check(okPred && len(yes) == 1 && everyPathPasses(ea, atoi, yes, nil), "C40.R4", "extractArgument/convert-only-after-full-scan", call.Pos(), "strconv.Atoi(part) must be reachable only when %s(part) said true, and that predicate must be true only after all runes passed ascii.IsDigit (%s)", hc.Common().StaticCallee().Name(), why)
+				n4++
+				okND := len(no) == 1
+				for e := range no {
+					if (engine.PathQuery{Fn: ea, FromBlk: e[1], Barrier: func(i ssa.Instruction) bool { return i == ssa.Instruction(hc) }}).Reaches(atoi) {
+						okND = false
+					}
+					app := false
+					for _, ac := range engine.CallsTo(ea, false, "builtin.append") {
+						if engine.Dominates(firstInstr(e[1]), ac) || ac.Block() == e[1] {
+							for _, v := range variadicVals(ac.Common().Args[1]) {
+								if engine.Unwrap(v) == part {
+									app = true
+								}
+							}
+						}
+					}
+					c.Check(app, "C40.R4", "extractArgument/non-digit-part-goes-to-type", call.Pos(), "a part with a non-digit rune must be appended (that same part) to the list the type is built from")
+				}
+				c.Check(okND, "C40.R4", "extractArgument/non-digit-never-converted", call.Pos(), "after a non-digit rune the part must not reach strconv.Atoi")
+				okArg := false
+				engine.Instrs(ea, func(i ssa.Instruction) {
+					st, ok := i.(*ssa.Store)
+					if !ok || engine.Describe(st.Addr) != "p:e.Argument" {
+						return
+					}
+					if ex, isE := engine.Unwrap(st.Val).(*ssa.Extract); isE && ex.Tuple == ssa.Value(atoi) && ex.Index == 0 {
+						okArg = true
+					}
+				})
+				n4++
+				c.Check(okArg, "C40.R4", "extractArgument/argument-is-converted-part", call.Pos(), "Argument must be assigned the converted numeric part")
 				continue
 			}
 			var next *ssa.Next
@@ -395,3 +447,73 @@ func callBoolExtract(call *ssa.Call, idx int, want bool) func(engine.Cmp) bool {
 }
 
 func firstInstr(b *ssa.BasicBlock) ssa.Instruction { return b.Instrs[0] }
+
+// c40DigitPredicate: h(s string) bool is "every rune of s passes ascii.IsDigit":
+// it ranges over its parameter, tests each rune, a failing rune leads only to
+// returns of false, a passing rune only to the next rune, and true is returned
+// only on the exhausted edge of the loop.
+func c40DigitPredicate(h *ssa.Function) (bool, string) {
+	if h == nil || len(h.Params) != 1 || h.Signature.Results().Len() != 1 {
+		return false, "not a one-argument predicate"
+	}
+	var rng *ssa.Range
+	engine.Instrs(h, func(i ssa.Instruction) {
+		if r, ok := i.(*ssa.Range); ok && engine.Unwrap(r.X) == ssa.Value(h.Params[0]) {
+			rng = r
+		}
+	})
+	if rng == nil {
+		return false, "no range over its argument"
+	}
+	var next *ssa.Next
+	for _, r := range *rng.Referrers() {
+		if nx, ok := r.(*ssa.Next); ok {
+			next = nx
+		}
+	}
+	if next == nil {
+		return false, "range without next"
+	}
+	var isd *ssa.Call
+	for _, dc := range engine.CallsTo(h, false, "ascii.IsDigit") {
+		d := dc.(*ssa.Call)
+		if ex, ok := engine.Unwrap(d.Common().Args[0]).(*ssa.Extract); ok && ex.Tuple == ssa.Value(next) && ex.Index == 2 {
+			isd = d
+		}
+	}
+	if isd == nil {
+		return false, "the runes are not tested with ascii.IsDigit"
+	}
+	exhausted := engine.EdgesWhere(h, func(k engine.Cmp) bool {
+		ex, ok := engine.Unwrap(k.X).(*ssa.Extract)
+		b, isB := engine.ConstBool(k.Y)
+		return ok && ex.Tuple == ssa.Value(next) && ex.Index == 0 && isB && !b
+	})
+	nd := engine.EdgesWhere(h, callBool(isd, false))
+	dg := engine.EdgesWhere(h, callBool(isd, true))
+	if len(exhausted) != 1 || len(nd) != 1 || len(dg) != 1 {
+		return false, "loop exits not recognised"
+	}
+	for e := range dg {
+		if e[1] != next.Block() {
+			return false, "a digit rune does not continue with the next rune"
+		}
+	}
+	for _, r := range engine.Returns(h) {
+		b, isB := engine.ConstBool(r.Results[0])
+		if !isB {
+			return false, "returns a computed value"
+		}
+		if b {
+			if !everyPathPasses(h, r, exhausted, nil) {
+				return false, "true can be returned before all runes were tested"
+			}
+			for e := range nd {
+				if (engine.PathQuery{Fn: h, FromBlk: e[1]}).Reaches(r) {
+					return false, "true can be returned after a non-digit rune"
+				}
+			}
+		}
+	}
+	return true, "ok"
+}
